@@ -281,6 +281,64 @@ def check_spec(label, spec):
         except Exception as e:  # noqa
             out.append(("C09/loaded-ir-unreadable:%s" % type(e).__name__,
                         "%s record-listed-twice:%s" % (label, which)))
+    # two records of the file carry ONE UUID (a record takes the UUID of its
+    # parent, of a child, of a sibling; for the base IR of every other
+    # record): the file may be rejected, but a loaded IR must hold one object
+    # per UUID
+    from gtirb.proto import IR_pb2
+
+    base = irgen.spec_to_message(spec, PV)
+    recs = uuid_records(base)
+    for i in range(len(recs)):
+        for j in range(len(recs)):
+            if i == j:
+                continue
+            related = (recs[j][2] == i or recs[i][2] == j
+                       or recs[i][2] == recs[j][2])
+            if not related and label != "base":
+                continue
+            if len(recs) > 40 and not (recs[j][2] == i or recs[i][2] == j):
+                continue
+            m = IR_pb2.IR()
+            m.CopyFrom(base)
+            r2 = uuid_records(m)
+            r2[j][1].uuid = r2[i][1].uuid
+            how = "uuid-of-%s[%d]-on-%s[%d]" % (recs[i][0], i, recs[j][0], j)
+            try:
+                y = g.IR.load_protobuf_file(io.BytesIO(irgen.file_bytes(m, PV)))
+            except Exception:  # noqa
+                continue
+            try:
+                for sig, det in identity_check(label, y, how):
+                    out.append((sig + ":two-records-one-uuid:%s-%s"
+                                % (recs[i][0], recs[j][0]), det))
+            except Exception as e:  # noqa
+                out.append(("C09/loaded-ir-unreadable:%s" % type(e).__name__,
+                            "%s %s" % (label, how)))
+    return out
+
+
+def uuid_records(msg):
+    """every record of the message that carries a uuid field:
+    [(kind, record, index of the parent record)]"""
+    out = [("ir", msg, -1)]
+    for m in msg.modules:
+        mi = len(out)
+        out.append(("module", m, 0))
+        for p in m.proxies:
+            out.append(("proxy", p, mi))
+        for y in m.symbols:
+            out.append(("symbol", y, mi))
+        for s in m.sections:
+            si = len(out)
+            out.append(("section", s, mi))
+            for b in s.byte_intervals:
+                bi = len(out)
+                out.append(("interval", b, si))
+                for k in b.blocks:
+                    w = k.WhichOneof("value")
+                    if w:
+                        out.append((w, getattr(k, w), bi))
     return out
 
 
